@@ -554,6 +554,7 @@ struct Ctx
     long target = -1;    // DESCRIBE / SINGLE
     volatile long* slot = nullptr;
     int case_timeout_s = 5;
+    int rerun_factor = 4;
     double deadline = 0; // absolute; RUN stops taking cases after it
     bool hit_deadline = false;
     bool done = false;   // DESCRIBE/SINGLE finished
@@ -584,7 +585,7 @@ struct Ctx
             if (idx != target)
                 return;
             current = idx;
-            arm(case_timeout_s * 10);
+            arm(case_timeout_s * rerun_factor);
             execute(rep);
             arm(0);
             done = true;
@@ -621,7 +622,9 @@ struct Sharded
     int nworkers = 16;
     int case_timeout_s = 5;
     double deadline_s = 0;  // relative budget
-    int max_restarts = 40;  // per worker
+    int max_restarts = 8;   // per worker; beyond that the shard is abandoned (exhaustive: false)
+    int rerun_factor = 4;   // a timed-out case is re-run alone with this multiple of the limit
+    int max_confirmed_hangs = 6; // after that many confirmed hangs further time-outs are taken at face value
     std::string tmpdir = ".";
     std::string id = "C00";   // used for temp file names
     std::string prop;         // property id used in violation signatures (default: id)
@@ -755,9 +758,15 @@ struct Sharded
                 continue;
             }
             Desc d = describe(bad);
-            if (hang)
+            if (hang && total.counters["confirmed_hangs"] >= max_confirmed_hangs)
             {
-                // re-run alone with a 10x limit before calling it a hang
+                total.violation("hang", prop + ":hang:" + d.classes, d.witness,
+                                "case did not finish within " + std::to_string(case_timeout_s) +
+                                    " s (not re-run alone: several hangs were already confirmed)", bad);
+            }
+            else if (hang)
+            {
+                // re-run alone with a longer limit before calling it a hang
                 fflush(stdout);
                 pid_t q = fork();
                 if (q == 0)
@@ -766,6 +775,7 @@ struct Sharded
                     c.mode = Ctx::SINGLE;
                     c.target = bad;
                     c.case_timeout_s = case_timeout_s;
+                    c.rerun_factor = rerun_factor;
                     walk(c);
                     c.rep.save(fname(w, ".single"));
                     _exit(0);
@@ -780,10 +790,13 @@ struct Sharded
                     total.merge(single);
                 }
                 else
+                {
+                    total.count("confirmed_hangs");
                     total.violation("hang", prop + ":hang:" + d.classes, d.witness,
                                     "case did not finish within " +
-                                        std::to_string(case_timeout_s * 10) + " s",
+                                        std::to_string(case_timeout_s * rerun_factor) + " s when re-run alone",
                                     bad);
+                }
                 unlink(fname(w, ".single").c_str());
             }
             else
